@@ -184,16 +184,21 @@ type Server struct {
 
 type syncWaitGroup struct {
 	sync.WaitGroup
-	int
+	int            // diagnostic count of outstanding goroutines, guarded by mu
+	mu  sync.Mutex // Done (loop goroutines) and Wait (Server.Stop) run concurrently
 }
 
 func (wg *syncWaitGroup) Add(delta int) {
 	wg.WaitGroup.Add(delta)
+	wg.mu.Lock()
 	wg.int += delta
+	wg.mu.Unlock()
 }
 
 func (wg *syncWaitGroup) Done() {
 	wg.WaitGroup.Done()
+	wg.mu.Lock()
+	defer wg.mu.Unlock()
 	if wg.int == 0 {
 		panic("negative WaitGroup counter")
 	}
@@ -201,10 +206,13 @@ func (wg *syncWaitGroup) Done() {
 }
 
 func (wg *syncWaitGroup) Wait() {
-	if wg.int == 0 {
+	wg.mu.Lock()
+	n := wg.int
+	wg.mu.Unlock()
+	if n == 0 {
 		log.Warn("No p2p threads to wait for")
 	} else {
-		log.Warn("Waiting for p2p threads", "n", wg.int)
+		log.Warn("Waiting for p2p threads", "n", n)
 	}
 	wg.WaitGroup.Wait()
 }
